@@ -55,6 +55,10 @@ def zeroSpread (mx mn : α) : Bool := decide (¬ (mx - mn < 0) ∧ ¬ (0 < mx - 
 inductive Dev | dt | start | stop | dtgRef
 deriving Repr, DecidableEq
 
+/-- Exception kinds (`type`: the message formatting subscripts `common`, which is `None` for non-overlapping series). -/
+inductive Err | fileExists | key | value | type | assertion | bounds | index | notImplemented
+deriving Repr, DecidableEq
+
 structure TimeCheck (α : Type) where
   isCommon : Bool
   dtgDefined : Bool
@@ -86,8 +90,10 @@ def handled (cs ce : α) (twin : Option (α × α)) (res : Option (Resample α))
     | none => []
   byRes.map (· ++ byTwin)
 
-/-- `TsDB._check_time_arrays(container, twin=…, resample=…)`; `none` = ValueError (empty container, degenerate `resample`). -/
-def checkTimeArrays (ss : List (Summary α)) (twin : Option (α × α)) (res : Option (Resample α)) : Option (TimeCheck α) :=
+/-- `TsDB._check_time_arrays(container, twin=…, resample=…)`. Errors: ValueError (empty container, degenerate `resample`
+array); TypeError when the answer is negative for a step/start/end deviation and the series do not overlap (the recommended
+actions are formatted from `common`, which is `None` then). -/
+def checkTimeArrays (ss : List (Summary α)) (twin : Option (α × α)) (res : Option (Resample α)) : Except Err (TimeCheck α) :=
   match maxL (ss.map (·.dt)), minL (ss.map (·.dt)), maxL (ss.map (·.start)), minL (ss.map (·.start)),
       maxL (ss.map (·.stop)), minL (ss.map (·.stop)), ss with
   | some dmax, some dmin, some smax, some smin, some emax, some emin, s0 :: _ =>
@@ -99,11 +105,12 @@ def checkTimeArrays (ss : List (Summary α)) (twin : Option (α × α)) (res : O
       (if zeroSpread emax emin then [] else [.stop])
     let devs1 : List Dev := if dtgDefined && !sameDtg then [.dtgRef] else devs0
     match handled smax emin twin res with
-    | none => none
+    | none => .error .value
     | some h =>
       let devs := devs1.filter fun d => !h.contains d
-      some ⟨devs.isEmpty, dtgDefined, dtgRef, common, devs⟩
-  | _, _, _, _, _, _, _ => none
+      if common.isNone && (devs.contains .dt || devs.contains .start || devs.contains .stop) then .error .type
+      else .ok ⟨devs.isEmpty, dtgDefined, dtgRef, common, devs⟩
+  | _, _, _, _, _, _, _ => .error .value
 
 /-- The time array a window leaves (`t[(t >= a) & (t <= b)]`); equals the first component of `Pipeline.window`. -/
 def windowT (a b : α) (t : List α) : List α := t.filter fun v => decide (a ≤ v ∧ v ≤ b)
@@ -114,21 +121,18 @@ def cropT (twin : Option (α × α)) (t : List α) : List α :=
   | none => t
 
 /-- `TsDB.create_common_time(names, twin)` (`maxdt=None`, `strict=False`); `firstT` is the time array of the first selected
-series; `none` = ValueError. -/
-def createCommonTime (rnd : α → Int) (ss : List (Summary α)) (firstT : List α) (twin : Option (α × α)) : Option (List α) :=
+series. -/
+def createCommonTime (rnd : α → Int) (ss : List (Summary α)) (firstT : List α) (twin : Option (α × α)) : Except Err (List α) :=
   match checkTimeArrays ss none none with
-  | none => none
-  | some tc =>
-    if tc.isCommon then some (cropT twin firstT)
+  | .error e => .error e
+  | .ok tc =>
+    if tc.isCommon then .ok (cropT twin firstT)
     else
       match tc.common with
-      | some (a, b, d) => some (cropT twin (Qats.Pipeline.newTimearray rnd a b d))
-      | none => none
+      | some (a, b, d) => .ok (cropT twin (Qats.Pipeline.newTimearray rnd a b d))
+      | none => .error .value
 
 /-! ### `_make_export_friendly_names` -/
-
-inductive Err | fileExists | key | value | assertion | bounds | index | notImplemented
-deriving Repr, DecidableEq
 
 /-- `os.path.splitext` (POSIX): the extension starts at the last dot of the last component, leading dots do not count. -/
 def splitext (p : Str) : Str × Str :=
@@ -243,16 +247,16 @@ def exportTrace (cwd : Str) (rnd : α → Int) (st : Stages α) (r : Req α) (se
       | none => tr1 ++ [.raise .index]
       | some ss =>
         match checkTimeArrays ss r.opts.twin r.opts.resample with
-        | none => tr1 ++ [.raise .value]
-        | some tc =>
+        | .error e => tr1 ++ [.raise e]
+        | .ok tc =>
           -- step 4: which options are handed to `TimeSeries.get`
           let decision : List (Effect α) × Except Err (Opts α) :=
             if tc.isCommon then ([], .ok r.opts)
             else if r.opts.resample.isSome then ([], .ok r.opts)
             else if r.force then
               match createCommonTime rnd ss ((sel.head?.map (·.t)).getD []) r.opts.twin with
-              | some ct => ([.commonTime], .ok { r.opts with resample := some (.times ct) })
-              | none => ([.commonTime], .error .value)
+              | .ok ct => ([.commonTime], .ok { r.opts with resample := some (.times ct) })
+              | .error e => ([.commonTime], .error e)
             else ([], .error .value)
           match decision with
           | (tr2, .error e) => tr1 ++ tr2 ++ [.raise e]
